@@ -290,3 +290,250 @@ def c08(tier):
 @check("C09")
 def c09(tier):
     return dynamic_check("C09", tier, "c09")
+
+
+# ----------------------------------------------------------------------------------------------------------------
+# C06 configuration independence, C17 faults, C18 call bounds (static solvers)
+# ----------------------------------------------------------------------------------------------------------------
+FAKESAT = os.path.join(vlib.HARNESS, "target", "debug", "fakesat")
+
+
+@check("C06")
+def c06(tier):
+    res = Result("C06", tier)
+    vlib.build_harness()
+    thorough = tier == "thorough"
+    sets = af_sets(res, tier)
+    rng = random.Random(seed())
+    plans = [("ref3_embedded", sets["ref3"], "compact,sparse,dup", "cadical"),
+             ("iso4_embedded", sets["iso4"] if thorough else sets["iso4"][:300], "compact,sparse", "cadical"),
+             ("shaped_embedded", sets["shaped"], "compact,sparse", "cadical"),
+             ("rand_embedded", sets["rand"], "compact", "cadical"),
+             ("ref3_external", sets["ref3"] if thorough else rng.sample(sets["ref3"], 120), "compact", "cadical,ext:" + FAKESAT),
+             ("shaped_external", sets["shaped"] if thorough else [a for a in sets["shaped"] if a["n"] <= 8][:16], "compact", "cadical,ext:" + FAKESAT)]
+    if thorough:
+        plans.append(("rand_kissat", sets["rand"][:200], "compact", "cadical,ext:kissat|-q"))
+    nt = 0
+    for name, afs, present, backends in plans:
+        afile = os.path.join(res.wd, name + ".afs.jsonl")
+        out = os.path.join(res.wd, name + ".ndjson")
+        afgen.write(afile, afs)
+        t = time.time()
+        vlib.vh(["seq", "--afs", afile, "--out", out, "--present", present, "--backends", backends, "--seed", seed(), "--threads", vlib.NCPU])
+        segs = vlib.segments(out, openers=("af",))
+        log("  RUN %-18s %5d frameworks -> %7d events %.1fs" % (name, len(afs), sum(len(s) for s in segs), time.time() - t))
+        t1, st = vlib.judge("TraceStatic.tla", segs, res.wd, name)
+        res.add_judge(name, t1, st, only_props={"C06"})
+        for seg in segs:
+            for e in seg:
+                if e.get("ev") == "agree" and e["n"] >= 4:
+                    nt += 1
+        if len(res.samples) < 3 and segs:
+            s = segs[len(segs) // 2]
+            res.samples.append({"framework": {k: s[0][k] for k in ("n", "att", "present")}, "events": s[1:4]})
+    res.nontrivial = nt
+    res.rule = ("per framework and per (semantics, DC|DS): one solver object per (encoder, backend) answers a seeded sequence of 2n+2 queries with "
+                "repetitions and random certificate flag; one 'agree' event per (semantics, kind, argument) listing the distinct statuses over all "
+                "configurations and positions; non-trivial = agree event backed by >= 4 answers")
+    res.exhaustive = False
+    res.assumptions = ["external backend = harness/src/bin/fakesat.rs (strict DIMACS checker over CaDiCaL); kissat in the thorough tier",
+                       "that each individual status is the right one is decided by C02/C03, not here"]
+    return res.finish()
+
+
+@check("C18")
+def c18(tier):
+    res = Result("C18", tier)
+    vlib.build_harness()
+    thorough = tier == "thorough"
+    # design level: the search machines of Static.tla respect the bound for every oracle schedule
+    static_mc(res, tier)
+    sets = af_sets(res, tier)
+    plan = [("ref3", sets["ref3"], "compact,sparse", 400 if thorough else 200, 2),
+            ("iso4", sets["iso4"], "compact", 200 if thorough else 48, 1),
+            ("shaped", [a for a in sets["shaped"] if a["n"] <= (12 if thorough else 9)], "compact", 24 if thorough else 8, 1),
+            ("rand", sets["rand"], "compact", 24 if thorough else 6, 1),
+            ("randlists", [a for a in sets["rand"] if a["n"] <= 5][:100 if thorough else 16], "compact", 6, 3)]
+    nt = set()
+    for name, afs, present, budget, lists in plan:
+        segs = run_static(res, "C18_" + name, afs, sems="CO,PR,ST,SST,STG,ID", kinds="SE,DC,DS", cert="both", present=present,
+                          oracle="dfs", budget=budget, lists=lists, cc="yes", cap=3000)
+        segs = [[e for e in s if e["ev"] in ("af", "cc") or (e["ev"] == "q" and e["out"]["capped"])] for s in segs]
+        t1, st = vlib.judge("TraceStatic.tla", segs, res.wd, "C18_" + name, shards=8)
+        res.add_judge(name, t1, st, only_props={"C18"})
+        for seg in segs:
+            for e in seg:
+                if e["ev"] == "cc" and e["calls"] >= 3:
+                    nt.add((json.dumps(e["labels"]), json.dumps(e["att"]), e["sem"], e["base"], e["calls"], json.dumps(e["returned"])))
+        if len(res.samples) < 3:
+            for seg in segs[len(segs) // 2:]:
+                cs = [e for e in seg if e["ev"] == "cc" and e["calls"] >= 3]
+                if cs:
+                    res.samples.append(cs[0])
+                    break
+    res.nontrivial = len(nt)
+    res.rule = ("one 'cc' event per distinct (query kind, component, number of SAT calls, sequence of decoded candidate sets) over all explored "
+                "SAT-model schedules, calls summed per query and per component over the solver instances that worked on it; "
+                "non-trivial = component on which >= 3 SAT calls were made")
+    res.exhaustive = False
+    res.assumptions = ["the component is the sub-framework handed to the encoder (observed by TracingEncoder)", "bounds as stated in the property's quantifier text"]
+    return res.finish()
+
+
+def static_mc(res, tier):
+    """model checking of the static search machines (Static.tla), when present"""
+    for cfg in sorted(os.listdir(vlib.SPEC)):
+        if cfg.startswith("MCStatic") and cfg.endswith(".cfg"):
+            if tier != "thorough" and "_N4" in cfg:
+                continue
+            res.add_mc(vlib.mc("MCStatic.tla", cfg=cfg, wd=res.wd, name=cfg[:-4], timeout=3000))
+
+
+@check("C17")
+def c17(tier):
+    res = Result("C17", tier)
+    vlib.build_harness()
+    thorough = tier == "thorough"
+    static_mc(res, tier)
+    sets = af_sets(res, tier)
+    nt = set()
+    plans = [("unknown_ref3", sets["ref3"], dict(fault="yes", present="compact,sparse")),
+             ("unknown_iso4", sets["iso4"] if thorough else sets["iso4"][:200], dict(fault="yes", present="compact")),
+             ("unknown_shaped", sets["shaped"], dict(fault="yes", present="compact")),
+             ("unknown_rand", sets["rand"] if thorough else sets["rand"][:120], dict(fault="yes", present="compact"))]
+    rng = random.Random(seed())
+    sample = rng.sample(sets["ref3"], 531 if thorough else 40) + [a for a in sets["shaped"] if a["n"] <= 7][:10]
+    for mode in ("silent", "truncated", "garbage", "nomodel", "crash", "vnozero"):
+        plans.append(("process_" + mode, sample, dict(failing="yes", present="compact", backend="ext:%s|--mode|%s" % (FAKESAT, mode), enc="default")))
+    for name, afs, opts in plans:
+        segs = run_static(res, "C17_" + name, afs, sems="CO,PR,ST,SST,STG,ID", kinds="SE,DC,DS", cert="both", oracle="real", **opts)
+        t1, st = vlib.judge("TraceStatic.tla", segs, res.wd, "C17_" + name)
+        res.add_judge(name, t1, st, only_props={"C17"})
+        for seg in segs:
+            for e in seg:
+                if e["ev"] == "fault" and e["out"]["faulted"]:
+                    nt.add((json.dumps(seg[0]["att"]), seg[0]["present"], e["sem"], e["kind"], json.dumps(e["args"]), e["cert"], e["enc"], e["at"], e.get("how", "unknown")))
+        if len(res.samples) < 3:
+            fs = [e for s in segs for e in s if e["ev"] == "fault" and e["out"]["faulted"]]
+            if fs:
+                res.samples.append(fs[len(fs) // 2])
+    res.nontrivial = len(nt)
+    res.rule = ("for every query a fault-free run counts the SAT calls k, then one run per position 1..k with the backend answering Unknown at "
+                "that call (FaultySat through the public factory); separately every SAT call fails through a real process (fakesat modes: exit "
+                "without output, truncated model, garbage line, status without model, crash, model without terminating 0); "
+                "non-trivial = distinct (framework, query, encoder, fault position, fault kind) in which the fault was actually injected")
+    res.exhaustive = False
+    res.extra["exhaustive_part"] = "all frameworks <= 3 arguments x all problems x every SAT-call position (Unknown result)"
+    return res.finish()
+
+
+# ----------------------------------------------------------------------------------------------------------------
+# C15 incremental SAT contract, C16 external exchange
+# ----------------------------------------------------------------------------------------------------------------
+def export_replay(res, module, cfg_text, name, tag="REPLAY"):
+    cfg = os.path.join(res.wd, name + ".cfg")
+    open(cfg, "w").write(cfg_text)
+    r = vlib.mc(module, cfg=cfg, wd=res.wd, name=name, timeout=3000)
+    res.add_mc(r)
+    items = vlib.printed(r["out"], tag)
+    path = os.path.join(res.wd, name + ".jsonl")
+    with open(path, "w") as f:
+        for h in items:
+            f.write(json.dumps(h) + "\n")
+    return path, len(items)
+
+
+@check("C15")
+def c15(tier):
+    res = Result("C15", tier)
+    vlib.build_harness()
+    thorough = tier == "thorough"
+    cfgt = open(os.path.join(vlib.SPEC, "MCSat.cfg")).read().replace("MaxClauses = 2", "MaxClauses = %d" % (3 if thorough else 2))
+    hfile, nh = export_replay(res, "MCSat.tla", cfgt, "MCSat")
+    ext = "ext:kissat|-q,ext:" + FAKESAT
+    runs = [("hist_cadical", ["--hists", hfile, "--backends", "cadical"]),
+            ("hist_external", ["--hists", hfile, "--stride", 4 if thorough else 16, "--backends", ext]),
+            ("walks_all", ["--walks", 1500 if thorough else 300, "--backends", "cadical," + ext])]
+    nt = set()
+    for name, extra in runs:
+        out = os.path.join(res.wd, name + ".ndjson")
+        t = time.time()
+        vlib.vh(["sat", "--seed", seed(), "--out", out, "--threads", vlib.NCPU] + extra)
+        segs = vlib.segments(out, openers=("reset",))
+        log("  RUN %-14s -> %d histories, %d events %.1fs" % (name, len(segs), sum(len(s) for s in segs), time.time() - t))
+        t1, st = vlib.judge("TraceSat.tla", segs, res.wd, name, shards=8)
+        for t in t1:
+            t["extra_attrs"] = {"backend": (t.get("context") or {}).get("backend")}
+        res.add_judge(name, t1, st, only_props={"C15"})
+        for seg in segs:
+            ncl = 0
+            for e in seg[1:]:
+                if e["ev"] == "add":
+                    ncl += 1
+                elif e["ev"] == "solve" and ncl >= 2 and e["assumps"]:
+                    nt.add((seg[0]["backend"], ncl, json.dumps(e["assumps"]), e["res"], json.dumps(e["model"])))
+        if len(res.samples) < 3:
+            s = segs[len(segs) // 2]
+            res.samples.append({"backend": s[0]["backend"], "history": s[1:8]})
+    res.nontrivial = len(nt)
+    res.rule = ("histories = one per distinct solver state of Sat.tla (3 variables, clause universe of empty/unit/binary clauses, exported by MCSat) with a "
+                "solve between additions and all assumption sets of size <= 2 (plus an assumption on an unseen variable) at the end, on CadicalSolver and "
+                "ExternalSatSolver (kissat, fakesat); plus seeded random histories over 4-8 variables; non-trivial = solve under assumptions after >= 2 clauses")
+    res.exhaustive = False
+    res.assumptions = ["kissat and fakesat (CaDiCaL behind a strict DIMACS reader) are correct SAT solvers"]
+    return res.finish()
+
+
+def _stride_arg():
+    return []
+
+
+@check("C16")
+def c16(tier):
+    res = Result("C16", tier)
+    vlib.build_harness()
+    thorough = tier == "thorough"
+    # (ii) design: drain-then-wait terminates for every input/output volume around the pipe capacity and every child behaviour
+    res.add_mc(vlib.mc("MCExtSat.tla", cfg="MCExtSat_proc.cfg", wd=res.wd, name="MCExtSat_DrainThenWait", timeout=1200))
+    # (iii) replies enumerated by the specification, concretised and fed to the real parser through a process
+    rfile, nr = export_replay(res, "MCExtReply.tla", open(os.path.join(vlib.SPEC, "MCExtReply.cfg")).read().replace("MaxLines = 3", "MaxLines = %d" % (4 if thorough else 3)), "MCExtReply")
+    out = os.path.join(res.wd, "ext.ndjson")
+    vols = "ok,pad:1024,pad:61440,pad:66000,pad:71680,pad:1048576,pad:8388608,split:1,split:2,split:5,early"
+    if thorough:
+        vols += ",pad:33554432,pad:65536,pad:65537,pad:131072"
+    tmp = os.path.join(res.wd, "exttmp")
+    t = time.time()
+    vlib.vh(["ext", "--replies", rfile, "--volumes", vols, "--fakesat", FAKESAT, "--timeout_ms", 20000, "--tmp", tmp, "--out", out, "--threads", vlib.NCPU])
+    segs = vlib.segments(out, openers=("reset",))
+    log("  RUN ext: %d replies + volumes -> %d events %.1fs" % (nr, sum(len(s) for s in segs), time.time() - t))
+    t1, st = vlib.judge("TraceExtSat.tla", segs, res.wd, "ext")
+    res.add_judge("ext", t1, st, only_props={"C16"})
+    nt = set(json.dumps(e["lines"]) for s in segs for e in s if e["ev"] == "reply" and len(e["lines"]) >= 2)
+    nt |= set(e["mode"] for s in segs for e in s if e["ev"] == "volume")
+    # (i) header of every instance handed to the external program by real argumentation queries
+    sets = af_sets(res, tier)
+    rng = random.Random(seed())
+    afs = (sets["ref3"] if thorough else rng.sample(sets["ref3"], 150)) + [a for a in sets["shaped"] if a["n"] <= 9] + sets["rand"][:(200 if thorough else 30)]
+    logf = os.path.join(res.wd, "dimacs.log")
+    if os.path.exists(logf):
+        os.remove(logf)
+    backend = "ext:%s|--log|%s" % (FAKESAT, logf)
+    segs_q = run_static(res, "C16_queries", afs, sems="CO,PR,ST,SST,STG,ID", kinds="SE,DC,DS", cert="both", present="compact", oracle="real", backend=backend)
+    dim = [json.loads(l) for l in open(logf)] if os.path.exists(logf) else []
+    hsegs = [[{"ev": "reset", "what": "headers"}] + dim]
+    t1, st = vlib.judge("TraceExtSat.tla", hsegs, res.wd, "headers", shards=4)
+    res.add_judge("headers", t1, st, only_props={"C16"})
+    # the queries themselves must have been answered (a refused instance shows as a panic); judged for information by C06
+    npanic = sum(1 for s in segs_q for e in s if e.get("ev") == "q" and e["out"]["panic"])
+    res.extra["queries_aborted_with_external_backend"] = npanic
+    res.extra["dimacs_instances_logged"] = len(dim)
+    nt |= set((d["nv"], d["nc"], d["maxvar"]) for d in dim if d["nc"] >= 4)
+    res.nontrivial = len(nt)
+    res.samples = [segs[0][len(segs[0]) // 2] if segs else {}, dim[len(dim) // 2] if dim else {}] + [e for s in segs for e in s if e["ev"] == "volume"][:2]
+    res.rule = ("replies = all sequences of <= %d lines over 13 line kinds (exported by MCExtReply) concretised and read by the real parser through a "
+                "process; volumes = real calls whose reply is padded to 1 KiB..8 MiB (below and above the 64 KiB pipe capacity), split v lines, reply "
+                "before stdin is consumed, each under a 20 s cap; headers = every DIMACS instance received by the external program during real "
+                "queries (all semantics, encoders' defaults); non-trivial = reply of >= 2 lines, a volume mode, or a distinct header with >= 4 clauses" % (4 if thorough else 3))
+    res.exhaustive = False
+    res.assumptions = ["OS pipe capacity 64 KiB (Linux default)", "fakesat logs exactly the bytes it received"]
+    return res.finish()
